@@ -38,6 +38,9 @@ enum S {
     LetCall(usize, usize, Rhs, Rhs),
     /// an arbitrary pattern let (S1): let P: T = <fresh constants>
     LetPat(Pat, Ty),
+    /// two sibling blocks with nothing bound between them (S3). kind 0: `let (n, other): (u8, u8) = ({l; rl}, {r; rr});`
+    /// kind 1 / 2: `let n: u8 = fa / fb({l; rl}, {r; rr});`  kind 3: `{ l }; { <probes> r };` with no probe in between
+    Siblings(u8, usize, Vec<S>, Rhs, Vec<S>, Rhs),
 }
 
 /// (name, parameter order, returned parameter, body kind)
@@ -76,7 +79,7 @@ fn size(s: &S) -> usize {
     match s {
         S::Block(v) => 1 + v.iter().map(size).sum::<usize>(),
         S::LetBlock(_, v, _) => 1 + v.iter().map(size).sum::<usize>(),
-        S::Match(_, l, _, r) => 1 + l.iter().map(size).sum::<usize>() + r.iter().map(size).sum::<usize>(),
+        S::Match(_, l, _, r) | S::Siblings(_, _, l, _, r, _) => 1 + l.iter().map(size).sum::<usize>() + r.iter().map(size).sum::<usize>(),
         _ => 1,
     }
 }
@@ -96,6 +99,8 @@ fn vis_after(s: &S, vis: u8) -> u8 {
     match s {
         S::Let(n, _) | S::LetBlock(n, _, _) | S::LetCall(n, _, _, _) => vis | (1 << n),
         S::LetPair(n0, n1, _, _) => vis | (1 << n0) | (1 << n1),
+        S::Siblings(0, _, _, _, _, _) => vis | 3,
+        S::Siblings(1 | 2, n, _, _, _, _) => vis | (1 << n),
         S::LetPat(p, _) => {
             let mut names = vec![];
             p.names(&mut names);
@@ -358,6 +363,40 @@ impl Elab {
                 let a = arms.pop().unwrap();
                 out.push(Stmt::Expr(match_(var("sel"), a, b)));
             }
+            S::Siblings(kind, n, l, rl, r, rr) => {
+                self.env.push(HashMap::new());
+                let mut body_l = vec![];
+                self.seq(l, &mut body_l);
+                let (el, vl) = self.rhs(rl);
+                self.env.pop();
+                self.scope_exits += 1;
+                self.env.push(HashMap::new());
+                let mut body_r = vec![];
+                if *kind == 3 {
+                    // lookups at the very start of the second block, before anything is bound in it
+                    self.probes(&mut body_r);
+                }
+                self.seq(r, &mut body_r);
+                let (er, vr) = self.rhs(rr);
+                self.env.pop();
+                self.scope_exits += 1;
+                match kind {
+                    0 => {
+                        out.push(let_(Pat::Tuple(vec![Pat::id(NAMES[*n]), Pat::id(NAMES[1 - *n])]), Ty::tup(vec![Ty::U(8), Ty::U(8)]), Expr::Tuple(vec![block(body_l, Some(el)), block(body_r, Some(er))])));
+                        self.bind(NAMES[*n], vl);
+                        self.bind(NAMES[1 - *n], vr);
+                    }
+                    1 | 2 => {
+                        let f = if *kind == 1 { "fa" } else { "fb" };
+                        out.push(let_(Pat::id(NAMES[*n]), Ty::U(8), fcall(f, vec![block(body_l, Some(el)), block(body_r, Some(er))])));
+                        self.bind(NAMES[*n], if *kind == 1 { vl } else { vr });
+                    }
+                    _ => {
+                        out.push(Stmt::Expr(block(body_l, None)));
+                        out.push(Stmt::Expr(block(body_r, None)));
+                    }
+                }
+            }
             S::LetCall(n, fi, r0, r1) => {
                 let (e0, v0) = self.rhs(r0);
                 let (e1, v1) = self.rhs(r1);
@@ -390,6 +429,7 @@ fn contains_match(ss: &[S]) -> bool {
     ss.iter().any(|s| match s {
         S::Match(..) => true,
         S::Block(v) | S::LetBlock(_, v, _) => contains_match(v),
+        S::Siblings(_, _, l, _, r, _) => contains_match(l) || contains_match(r),
         _ => false,
     })
 }
@@ -399,6 +439,7 @@ fn uses_calls(ss: &[S]) -> bool {
         S::LetCall(..) => true,
         S::Block(v) | S::LetBlock(_, v, _) => uses_calls(v),
         S::Match(_, l, _, r) => uses_calls(l) || uses_calls(r),
+        S::Siblings(k, _, l, _, r, _) => *k == 1 || *k == 2 || uses_calls(l) || uses_calls(r),
         _ => false,
     })
 }
@@ -427,8 +468,14 @@ pub fn run(rep: &Report) -> i32 {
     let mut structures: Vec<(String, Vec<S>)> = seqs(budget, 3, 0, true, 1).into_iter().map(|s| ("S2".to_string(), s)).collect();
     let s2 = structures.len();
     // a deeper slice without calls (cheaper alphabet): budget + 1
+    // (quick: every fourth structure of this slice, in enumeration order)
+    let mut deep_seen = 0usize;
     for s in seqs(budget + 1, 3, 0, false, 1) {
         if s.iter().map(size).sum::<usize>() == budget + 1 {
+            deep_seen += 1;
+            if quick && deep_seen % 4 != 0 {
+                continue;
+            }
             structures.push(("S2-deep".to_string(), s));
         }
     }
@@ -481,7 +528,43 @@ pub fn run(rep: &Report) -> i32 {
             }
         }
     }
-    rep.set("bounds", json!({"S2_statement_budget": budget, "S2_structures": s2, "S2_deep_structures_without_calls": s2deep, "S1_patterns": n_pats, "S1_contexts": 8, "nesting": 3, "names": NAMES}));
+    // S3: sibling blocks with nothing bound between them, under every visibility prefix and in three contexts
+    let s3_start = structures.len();
+    let prefixes: Vec<Vec<S>> = vec![vec![], vec![S::Let(0, Rhs::Fresh)], vec![S::Let(1, Rhs::Fresh)], vec![S::LetPair(0, 1, Rhs::Fresh, Rhs::Fresh)]];
+    let (lb, rb) = if quick { (1, 1) } else { (2, 2) };
+    for pre in &prefixes {
+        let vis = pre.iter().fold(0u8, |v, s| vis_after(s, v));
+        for l in seqs(lb, 1, vis, false, 0) {
+            let vl = l.iter().fold(vis, |v, s| vis_after(s, v));
+            for r in seqs(rb, 1, vis, false, 0) {
+                let vr = r.iter().fold(vis, |v, s| vis_after(s, v));
+                let mut sibs = vec![];
+                for rl in rhs_options(vl) {
+                    for rr in rhs_options(vr) {
+                        for n in 0..2 {
+                            sibs.push(S::Siblings(0, n, l.clone(), rl.clone(), r.clone(), rr.clone()));
+                        }
+                        sibs.push(S::Siblings(1, 0, l.clone(), rl.clone(), r.clone(), rr.clone()));
+                        sibs.push(S::Siblings(2, 1, l.clone(), rl.clone(), r.clone(), rr.clone()));
+                    }
+                }
+                sibs.push(S::Siblings(3, 0, l.clone(), Rhs::Fresh, r.clone(), Rhs::Fresh));
+                for sib in sibs {
+                    for ctx in 0..3 {
+                        let mut c = pre.clone();
+                        match ctx {
+                            0 => c.push(sib.clone()),
+                            1 => c.push(S::Block(vec![sib.clone()])),
+                            _ => c.push(S::Match(0, vec![sib.clone()], 1, vec![sib.clone()])),
+                        }
+                        structures.push(("S3-siblings".to_string(), c));
+                    }
+                }
+            }
+        }
+    }
+    let s3 = structures.len() - s3_start;
+    rep.set("bounds", json!({"S3_sibling_block_structures": s3, "S2_statement_budget": budget, "S2_structures": s2, "S2_deep_structures_without_calls": s2deep, "S2_deep_stride": if quick { 4 } else { 1 }, "S1_patterns": n_pats, "S1_contexts": 8, "nesting": 3, "names": NAMES}));
     rep.transition(structures.len() as u64);
     let seen = std::sync::Mutex::new(std::collections::HashSet::new());
     par_for(&structures, rep, 32, |i, (family, ss)| {
